@@ -18,11 +18,11 @@ from tfv.props import c01, c02, c15, c18
 ID = "C16"
 LEVEL = "exploration"
 WORKERS = {"quick": 8, "thorough": 16}
-CASES = {"quick": 160, "thorough": 4000}  # state-machine runs (histories)
+CASES = {"quick": 200, "thorough": 4000}  # state-machine runs (histories)
 STEPS = {"quick": 30, "thorough": 60}
 BUDGET = {"quick": 50, "thorough": 560}
 RULE = (
-    "history = Hypothesis rule-based state machine: an initial step draws a schema, five co-resident engines of that schema with cache "
+    "history = Hypothesis rule-based state machine: an initial step draws a schema, co-resident engines of that schema (quick: default LRU, lru_cache(1) and one more; thorough: all five) with cache "
     "configurations {default LRU(512), lru_cache(1), lru_cache(2), custom dict decorator keyed by (query, schema), None} and a pool of "
     "6-10 requests (valid, invalid by mutation, syntactically broken, failing by injected fault, same text with other variables / "
     "operation names, str and bytes spellings of one text); each rule application sends one pool request to every engine. Invariant after "
@@ -30,7 +30,7 @@ RULE = (
     "in the thorough tier; once per distinct request in the quick tier). Distinct = SHA-1 of (pool, history prefix); non-trivial = the "
     "step re-sends a request whose text was evicted from a small cache since its last use, or re-sends an invalid/broken document."
 )
-ASSUMPTIONS = ["quick tier memoises the uncached reference response per distinct request (a fresh engine is deterministic); thorough re-cooks at every step"]
+ASSUMPTIONS = ["quick tier: the oracle is the first answer of one cache-less engine per history, memoised per distinct request; thorough re-cooks a fresh cache-less engine at every step"]
 CACHES = ["default", "lru1", "lru2", "dict", "none"]
 
 
@@ -63,14 +63,24 @@ def build_pool(c, schema, plan):
     pool = []
     base = []
     for _ in range(c.int(2, 3)):
-        spec, _ = c01.build_request(c, schema, plan, {"max_nodes": 8})
+        spec, _ = c01.build_request(c, schema, plan, {"max_nodes": 10, "p_skipinclude": 30, "w_inline": 25, "w_spread": 25})
         tree, ex, expected, root = c01.reference(spec, c)
         r = {"kind": "valid", "query": print_document(spec["doc"]).text, "op": spec["op"], "variables": spec["variables"], "tree": spec["tree"], "faults": [], "doc": spec["doc"]}
         base.append((r, spec, ex))
         pool.append(r)
-    while len(pool) < c.int(6, 10):
+    # every Boolean variable of a base request flipped on its own: same text, other @skip/@include decisions
+    for r0, spec, ex in list(base):
+        for k, old in list((r0["variables"] or {}).items())[:3]:
+            if isinstance(old, bool):
+                spec2 = dict(spec, variables=dict(r0["variables"], **{k: not old}), tree=None)
+                c01.reference(spec2, c)
+                r = copy.deepcopy(r0)
+                r.update(kind="other_vars", variables=spec2["variables"], tree=spec2["tree"])
+                pool.append(r)
+    target = max(len(pool) + 2, c.int(6, 10))
+    while len(pool) < target:
         r0, spec, ex = c.choice(base)
-        kind = c.weighted([(3, "invalid"), (2, "syntax"), (2, "other_vars"), (2, "bytes"), (2, "faulty"), (1, "other_op"), (2, "introspection"), (2, "typo_in_variable")])
+        kind = c.weighted([(3, "invalid"), (2, "syntax"), (5, "other_vars"), (2, "bytes"), (2, "faulty"), (1, "other_op"), (2, "introspection"), (2, "typo_in_variable")])
         if kind == "introspection":
             ir = c15.introspection_request(c, schema, dict(r0, doc=spec["doc"]))
             r = copy.deepcopy(r0)
@@ -113,6 +123,9 @@ def build_pool(c, schema, plan):
             dg = DocGen(c, schema)
             dg.vars = {v["name"]: dict(v, must_provide=True, nn_use=True) for v in op.get("vars") or ()}
             spec2 = dict(spec, variables=dg.variable_values(op), tree=None)
+            for k, old in (r0["variables"] or {}).items():
+                if isinstance(old, bool) and k in spec2["variables"] and c.maybe(70):
+                    spec2["variables"][k] = not old  # make sure @skip/@include decisions really change
             if c.maybe(30):
                 spec2["variables"]["zzExtra"] = c.int(0, 9)
             c01.reference(spec2, c)
@@ -152,11 +165,12 @@ def send(h, schema, r):
 
 
 class World:
-    def __init__(self, schema, plan, pool, rebuild_every_step):
+    def __init__(self, schema, plan, pool, rebuild_every_step, caches=None):
         self.schema, self.plan, self.pool = schema, plan, pool
         clean_registry()
         self.engines = []
-        for kind in CACHES:
+        self.caches = list(caches or CACHES)
+        for kind in self.caches:
             h = Harness(schema, plan, None)
             run_async(h.build(**cache_kwargs(kind)))
             self.engines.append((kind, h))
@@ -165,12 +179,19 @@ class World:
         self.history = []
 
     def reference(self, i):
-        if not self.rebuild and i in self.memo:
+        """thorough: a freshly cooked engine without parsing cache at every step; quick: the first answer of one
+        cache-less engine cooked for this history (a cache-less engine re-parses every time, so it has no
+        parsing history; what it answered first is what a fresh engine answers)"""
+        if not self.rebuild:
+            if i not in self.memo:
+                if getattr(self, "uncached", None) is None:
+                    self.uncached = Harness(self.schema, self.plan, None)
+                    run_async(self.uncached.build(query_cache_decorator=None))
+                self.memo[i] = send(self.uncached, self.schema, self.pool[i])
             return self.memo[i]
         h = Harness(self.schema, self.plan, None)
         run_async(h.build(query_cache_decorator=None))
-        self.memo[i] = send(h, self.schema, self.pool[i])
-        return self.memo[i]
+        return send(h, self.schema, self.pool[i])
 
     def step(self, i):
         self.history.append(i)
@@ -178,7 +199,7 @@ class World:
         for kind, h in self.engines:
             got = send(h, self.schema, self.pool[i])
             if got != ref:
-                spec = {"schema": self.schema, "plan": self.plan, "pool": self.pool, "history": list(self.history)}
+                spec = {"schema": self.schema, "plan": self.plan, "pool": self.pool, "history": list(self.history), "caches": self.caches}
                 _STATS["last_violation"] = _STATS.get("last_violation") or Violation(spec, "cache %r answered request #%d differently from a fresh uncached engine after history %r" % (kind, i, self.history))
                 raise Violation(spec, "engine with cache %r answered request #%d (%s) differently from a fresh uncached engine after history %r\n cached:   %s\n uncached: %s\nquery=%r op=%r variables=%r" % (
                     kind, i, self.pool[i]["kind"], self.history, got[:1500], ref[:1500], self.pool[i]["query"], self.pool[i]["op"], self.pool[i]["variables"]), tag="cache")
@@ -210,7 +231,9 @@ class CacheMachine(RuleBasedStateMachine):
         if c.maybe(25):
             schema["schema_dirs"] = [{"name": "nonIntrospectable", "args": []}]
         pool = build_pool(c, schema, plan)
-        self.world = World(schema, plan, pool, _STATS["tier"] == "thorough")
+        # quick tier: the default LRU, the 1-slot LRU (evictions) and one more configuration; thorough: all five
+        caches = CACHES if _STATS["tier"] == "thorough" else ["default", "lru1", c.choice(["lru2", "dict", "none"])]
+        self.world = World(schema, plan, pool, _STATS["tier"] == "thorough", caches)
 
     @rule(k=st.integers(0, 9))
     def send_one(self, k):
@@ -240,7 +263,8 @@ def run_worker(seed, tier, index, nworkers):
     _STATS["stats"], _STATS["tier"] = stats, tier
     scale = float(os.environ.get("TFV_SCALE", "1"))
     n = max(1, int(CASES[tier] * scale / nworkers))
-    settings = hypothesis.settings(core.hyp_settings(n), stateful_step_count=STEPS[tier])
+    # histories shrink slowly (every step re-runs several engines): shrink only in the thorough tier
+    settings = hypothesis.settings(core.hyp_settings(n, shrink=(tier == "thorough")), stateful_step_count=STEPS[tier])
     viol = None
     try:
         run_state_machine_as_test(hypothesis.seed(seed)(CacheMachine), settings=settings)
@@ -258,7 +282,7 @@ def run_worker(seed, tier, index, nworkers):
 
 
 def replay(spec):
-    w = World(spec["schema"], spec["plan"], spec["pool"], True)
+    w = World(spec["schema"], spec["plan"], spec["pool"], True, spec.get("caches"))
     for i in spec["history"]:
         w.step(i)
 
